@@ -87,7 +87,7 @@ WChainOfInverted == /\ CanWrap /\ p.k = "chain"
 WVmap == /\ CanWrap
          /\ \E n \in {2, 3}, cax \in {-9, 0, 1, -1, -2} :
               /\ (cax # -9 => SemCond(p) # None /\ cax < Len(SemCond(p)) + 1 /\ -(Len(SemCond(p)) + 1) <= cax)
-              /\ \E mapped \in (IF p.k = "aff" THEN BOOLEAN ELSE {FALSE}) :
+              /\ \E mapped \in (IF p.k \in {"aff", "cadd"} THEN BOOLEAN ELSE {FALSE}) :   \* cadd: parameters AND the condition vectorised
                    Wrap([k |-> "vmap", p |-> p, n |-> n, mapped |-> mapped, cax |-> cax])
 WStack == /\ CanWrap
           /\ \E axis \in -(Len(SemShape(p)) + 1)..Len(SemShape(p)), o \in OtherLeaf(SemShape(p)), three \in BOOLEAN :
